@@ -756,7 +756,11 @@ class X12SegmentDataNode(X12DataNode):
         @return: Iterator on the matching sub-nodes, relative to the instance.
         @rtype: L{node<x12context.X12DataNode>}
         """
-        return []
+        (curr, new_path) = self._get_start_node(x12_path_str)
+        if curr is self:
+            return []
+        # '../' leads to the enclosing loop, as it does for exists() and count()
+        return curr.select(new_path)
 
     def _select(self, x12path):
         """
